@@ -75,7 +75,13 @@ def case_table(tu, fname, offset_mode):
                 if t and first is None:
                     first = t
                 if n.get('kind') == 'CallExpr' and C.callee(n) in ('_g_ir_write_string', 'strlen'):
-                    mp = C.member_path(C.call_args(n)[0])
+                    a0 = C.strip(C.call_args(n)[0])
+                    mp = C.member_path(a0)
+                    if a0.get('kind') == 'DeclRefExpr' and a0.get('referencedDecl', {}).get('kind') == 'VarDecl':
+                        # a local that only names a member (`const gchar *text = constant->value;`)
+                        vd = tu.by_id.get(a0['referencedDecl'].get('id'))
+                        if vd is not None and C.kids(vd):
+                            mp = C.member_path(C.kids(vd)[-1]) or mp
                     if mp:
                         strings.add(mp.split('->')[-1])      # compare by member name (the local alias of the node differs)
             if st.get('kind') == 'BinaryOperator' and st.get('opcode') == '=' and C.declref(C.kids(st)[0]) == 'size' and C.int_value(C.kids(st)[1]) == 0:
@@ -115,10 +121,10 @@ def alias_rule(ctx, r8):
     for e in PB.effects:
         if e.kind != 'return':
             continue
-        mm = re.match(r'^&basic_types\[([\d+]+)\]$', e.value)
+        mm = re.match(r'^&basic_types\[([\d+() ]+)\]$', e.value)
         if not mm:
             continue
-        idx = sum(int(x) for x in mm.group(1).split('+'))
+        idx = sum(int(x) for x in re.findall(r'\d+', mm.group(1)))        # a sum of constants, however it is parenthesised
         sizes = [a_ for a_ in gsa.atoms(e.cond) if re.search(r'\.size == sizeof\(g?u?int(\d+)(_t)?\)$', a_)]
         byb = {}
         for a_ in sizes:
